@@ -46,7 +46,8 @@ func c13Doc(t *rapid.T, tag string) map[string]any {
 
 // c13Query draws one query over a document built with the given tag.
 func c13Query(t *rapid.T, tag string, site int, readOnlyOnly bool) (q string, orderOpen bool, kind string, reader bool) {
-	kinds := []string{"filter", "subquery", "exists", "join", "pjoin", "group", "async", "order", "cte", "phash", "reader", "in_sub", "spinasync", "derived"}
+	kinds := []string{"filter", "subquery", "exists", "join", "pjoin", "group", "async", "order", "cte", "phash", "reader", "in_sub", "spinasync", "derived",
+		"range_reader", "range_from", "distinct_reader", "cte_async", "derived_async", "sub_async", "range_col"}
 	kind = rapid.SampledFrom(kinds).Draw(t, "qkind")
 	k := rapid.IntRange(0, 4).Draw(t, "k") * 10
 	T, U, id, a, s, n, v, b := "t"+tag, "u"+tag, "id"+tag, "a"+tag, "s"+tag, "n"+tag, "v"+tag, "b"+tag
@@ -84,6 +85,22 @@ func c13Query(t *rapid.T, tag string, site int, readOnlyOnly bool) (q string, or
 		return fmt.Sprintf("WITH c%s AS (SELECT %s FROM %s WHERE %s >= %d) SELECT * FROM c%s", tag, id, T, a, k, tag), false, kind, false
 	case "derived":
 		return fmt.Sprintf("SELECT * FROM (SELECT %s, %s FROM %s WHERE %s >= %d) d", id, a, T, a, k), false, kind, false
+	case "range_reader":
+		// open-ended slices: the cached parse of the selector text must not remember one document's array length
+		sel := rapid.SampledFrom([]string{T + "[(1:end)]." + id, T + "[(begin:2)]." + a, T + "[(0:end)]." + n + "." + v, T + "[(begin:end)]." + s}).Draw(t, "rsel")
+		return sel, false, kind, true
+	case "range_from":
+		return fmt.Sprintf("SELECT %s, %s FROM `%s[(%s)]`", id, a, T, rapid.SampledFrom([]string{"1:end", "begin:2", "0:end", "begin:end"}).Draw(t, "rng")), false, kind, false
+	case "range_col":
+		return fmt.Sprintf("SELECT %s, `%s[(%s)]` AS part FROM %s", id, n, rapid.SampledFrom([]string{"1:end", "begin:1", "0:end"}).Draw(t, "rng"), T), false, kind, false
+	case "distinct_reader":
+		return "distinct=>" + U + "." + b, false, kind, true
+	case "cte_async":
+		return fmt.Sprintf("WITH c%s AS (SELECT %s, ASYNC.fx(%d, %s) AS y FROM %s) SELECT * FROM c%s", tag, id, site, a, T, tag), false, kind, false
+	case "derived_async":
+		return fmt.Sprintf("SELECT * FROM (SELECT %s, ASYNC.fx(%d, %s) AS y FROM %s) d", id, site, a, T), false, kind, false
+	case "sub_async":
+		return fmt.Sprintf("SELECT %s, (SELECT %s, ASYNC.fx(%d, %s) AS y FROM %s) AS sub FROM %s", id, v, site, v, n, T), false, kind, false
 	case "reader":
 		sel := rapid.SampledFrom([]string{T + "." + id, T + "[0]." + a, T + "." + n + "." + v, U + "." + b}).Draw(t, "sel")
 		return sel, false, kind, true
@@ -151,6 +168,16 @@ func genC13(t *rapid.T) *Bundle {
 		sites = append(sites, i)
 	}
 	c.Stubs.Lat = drawLatencies(t, sites, 4)
+	// user code failing on some rows: placed by argument value, so the same
+	// rows fail in the concurrent run and in each solo run
+	if rapid.IntRange(0, 2).Draw(t, "with_faults") == 0 {
+		nf := rapid.IntRange(1, 2).Draw(t, "nfaults")
+		for i := 0; i < nf; i++ {
+			c.Stubs.Faults = append(c.Stubs.Faults, casefmt.Fault{ID: rapid.SampledFrom(sites).Draw(t, "fault_site"),
+				Arg:  rapid.SampledFrom([]string{"n:0", "n:10", "n:20", "n:1", "n:2"}).Draw(t, "fault_arg"),
+				Kind: rapid.SampledFrom([]string{"error", "panic"}).Draw(t, "fault_kind")})
+		}
+	}
 	return &Bundle{Prop: "C13", Kind: config, Case: c, Expect: mustJSON(exp), Tags: []string{"config:" + config}}
 }
 
